@@ -270,6 +270,55 @@ func (g *Gates) ReleaseNth(point string, n int) bool {
 	return false
 }
 
+// Newest returns the park number and the point of the goroutine that parked last (0, "" if nobody is parked).
+func (g *Gates) Newest() (int, string) {
+	g.mu.Lock()
+	defer g.mu.Unlock()
+	n, pt := 0, ""
+	for _, p := range g.parked {
+		if p.n > n {
+			n, pt = p.n, p.point
+		}
+	}
+	return n, pt
+}
+
+// ReleaseN releases the parked goroutine with park number n.
+func (g *Gates) ReleaseN(n int) bool {
+	g.mu.Lock()
+	for i, p := range g.parked {
+		if p.n == n {
+			g.parked = append(g.parked[:i], g.parked[i+1:]...)
+			g.mu.Unlock()
+			g.rec.Log("gate.release", "point", p.point, "id", idString(p.id), "g", p.n)
+			close(p.ch)
+			return true
+		}
+	}
+	g.mu.Unlock()
+	return false
+}
+
+// ReleaseExcept releases every parked goroutine but the one with park number keep; reports whether any was released.
+func (g *Gates) ReleaseExcept(keep int) bool {
+	g.mu.Lock()
+	var ps, rest []*parked
+	for _, p := range g.parked {
+		if p.n == keep {
+			rest = append(rest, p)
+		} else {
+			ps = append(ps, p)
+		}
+	}
+	g.parked = rest
+	g.mu.Unlock()
+	for _, p := range ps {
+		g.rec.Log("gate.release", "point", p.point, "id", idString(p.id), "g", p.n)
+		close(p.ch)
+	}
+	return len(ps) > 0
+}
+
 // ReleaseAll releases every parked goroutine (parking modes stay as they are).
 func (g *Gates) ReleaseAll() {
 	g.mu.Lock()
